@@ -262,6 +262,7 @@ impl<const N: usize> Exec<N> {
                 let mut insts = vec![*i];
                 insts.extend(self.view.followers(*i).into_iter().map(|(f, _)| f));
                 let ctr = self.view.put_counter;
+                self.disk.borrow_mut().settle();
                 for inst in &insts {
                     let g = self.gs[*inst].as_mut().unwrap();
                     let r = guarded(|| {
@@ -275,11 +276,11 @@ impl<const N: usize> Exec<N> {
                                 1 => drop(g.data(v)),
                                 2 => g.add(v),
                                 3 => drop(g.clone()),
-                                _ => drop(g.save(Path::new("/sim/repeat-scratch.sodg"))),
+                                _ => drop(g.save(Path::new("repeat-scratch.sodg"))),
                             }
                         }
                     });
-                    let _ = self.disk.borrow_mut().files.remove("/sim/repeat-scratch.sodg");
+                    let _ = self.disk.borrow_mut().files.remove("repeat-scratch.sodg");
                     if let Err(c) = r {
                         return fail("panic.in-contract-call", clauses::PANIC_GC, format!("{times} calls of kind {kind} on ν{v} in a row panicked: {c:?}"));
                     }
@@ -600,14 +601,15 @@ impl<const N: usize> Exec<N> {
         let reference: Option<Vec<u8>> = if poisoned {
             None
         } else {
-            let refname = "/sim/reference.sodg";
+            let refname = "reference.sodg";
             let g = self.gs[i].as_ref().unwrap();
             // on a copy, so that the graph under test sees exactly the save() calls of the plan
+            self.disk.borrow_mut().settle();
             let r = guarded(|| g.clone().save(Path::new(refname)));
             let bytes = {
                 let mut d = self.disk.borrow_mut();
                 d.disarm();
-                let names: Vec<String> = d.files.keys().filter(|k| !k.starts_with("/sim/image-")).cloned().collect();
+                let names: Vec<String> = d.files.keys().filter(|k| !k.starts_with("image-")).cloned().collect();
                 let mut b = None;
                 for n in names {
                     let f = d.files.remove(&n);
@@ -638,7 +640,7 @@ impl<const N: usize> Exec<N> {
             let x = (d.fired, d.accepted, d.touched.contains(&name));
             d.disarm();
             // temporary files a crashed save may have left are not what recovery reads
-            let names: Vec<String> = d.files.keys().filter(|k| !k.starts_with("/sim/image-")).cloned().collect();
+            let names: Vec<String> = d.files.keys().filter(|k| !k.starts_with("image-")).cloned().collect();
             for n in names {
                 d.files.remove(&n);
             }
@@ -1000,8 +1002,9 @@ impl<const N: usize> Exec<N> {
                     }
                 }));
             }
-            run(guarded(|| drop(c.save(Path::new("/sim/poisoned-copy.sodg")))));
-            let _ = self.disk.borrow_mut().files.remove("/sim/poisoned-copy.sodg");
+            self.disk.borrow_mut().settle();
+            run(guarded(|| drop(c.save(Path::new("poisoned-copy.sodg")))));
+            let _ = self.disk.borrow_mut().files.remove("poisoned-copy.sodg");
             run(guarded(move || drop(c)));
         }
         self.stats.add("poisoned.exercise_calls", calls);
